@@ -158,3 +158,91 @@ def rotation_angle_about_z(Ra, Rb):
     """Signed angle of the relative rotation Rb Ra^T about its z axis (small-angle safe)."""
     D = Rb @ Ra.T
     return math.atan2(D[0, 1] - D[1, 0], D[0, 0] + D[1, 1])
+
+
+# ---- additions for C14 (appended; nothing above is changed) ---------------------------------
+def sez_from_azel(az, el, rho=1.0):
+    """SEZ position of the point at azimuth ``az`` (from north through east), elevation ``el``, range ``rho``."""
+    ce = math.cos(el)
+    return np.array([-rho * ce * math.cos(az), rho * ce * math.sin(az), rho * math.sin(el)])
+
+
+def azel_stable(sez):
+    """(az in [0,2pi), el, horizontal fraction) of a SEZ vector; el by atan2 (accurate at the zenith).
+
+    The horizontal fraction hypot(S,E)/|rho| tells the caller how well defined the azimuth is.
+    """
+    s, e, z = (float(c) for c in sez[:3])
+    h = math.hypot(s, e)
+    rho = math.sqrt(s * s + e * e + z * z)
+    el = math.atan2(z, h)
+    az = math.atan2(e, -s) % (2 * math.pi)
+    if az >= 2 * math.pi:  # (-tiny) % 2pi can round to 2pi
+        az = 0.0
+    return az, el, (h / rho if rho > 0 else 0.0)
+
+
+def rotate_about_vertical(sez, phi):
+    """Rotate a 3- or 6-component SEZ vector about the local vertical so that every azimuth grows by ``phi``."""
+    v = np.array(sez, dtype=float)
+    c, sn = math.cos(phi), math.sin(phi)
+    out = v.copy()
+    for k in range(0, len(v), 3):
+        n, e = -v[k], v[k + 1]
+        n2, e2 = c * n - sn * e, sn * n + c * e
+        out[k], out[k + 1] = -n2, e2
+    return out
+
+
+def az_arc_contains(az, lo, hi):
+    """Azimuth-mask membership by arc sweep: the mask is the arc swept from ``lo`` towards increasing
+    azimuth until ``hi``; ``lo``, ``hi`` in [0, 2pi] as configured (hi - lo == 2pi means the full circle)."""
+    two_pi = 2 * math.pi
+    width = hi - lo
+    if width < 0:
+        width += two_pi
+    if width >= two_pi:
+        return True
+    off = (az - lo) % two_pi
+    return off <= width
+
+
+def line_closest_param(p1, p2):
+    """Parameter t* of the point of the infinite line p1 + t (p2 - p1) closest to the origin (None if p1 == p2)."""
+    p1 = np.asarray(p1[:3], dtype=float)
+    p2 = np.asarray(p2[:3], dtype=float)
+    d = p2 - p1
+    dd = float(np.dot(d, d))
+    if dd == 0.0:
+        return None
+    return -float(np.dot(p1, d)) / dd
+
+
+def ray_min_distance(origin_pt, direction):
+    """Minimum distance from the coordinate origin to the half line origin_pt + t direction, t >= 0."""
+    p = np.asarray(origin_pt[:3], dtype=float)
+    d = unit(direction[:3])
+    along = float(np.dot(p, d))
+    if along >= 0.0:
+        return float(np.linalg.norm(p))
+    return float(np.linalg.norm(np.cross(p, d)))
+
+
+def radial_sez_basis(r):
+    """Rows S, E, Z of a local frame whose Z axis is the geocentric radial direction of ``r``."""
+    zen = unit(r[:3])
+    k = np.array([0.0, 0.0, 1.0]) if abs(zen[2]) < 0.9 else np.array([1.0, 0.0, 0.0])
+    east = unit(np.cross(k, zen))
+    north = np.cross(zen, east)
+    return np.vstack([-north, east, zen])
+
+
+def disc_limb_points(centre, radius, toward, n=24):
+    """``n`` points on the limb of a sphere (centre, radius) as seen from ``toward`` (tangent-circle approximation
+    replaced by the great circle perpendicular to the line of sight - used with a margin)."""
+    c = np.asarray(centre[:3], dtype=float)
+    los = unit(c - np.asarray(toward[:3], dtype=float))
+    k = np.array([0.0, 0.0, 1.0]) if abs(los[2]) < 0.9 else np.array([1.0, 0.0, 0.0])
+    u = unit(np.cross(los, k))
+    v = np.cross(los, u)
+    return [c + radius * (math.cos(2 * math.pi * i / n) * u + math.sin(2 * math.pi * i / n) * v) for i in range(n)]
